@@ -46,6 +46,20 @@ pub fn emit(
     consts: &[(String, Vec<u64>)],
     witnesses: &[Witness],
 ) -> String {
+    emit_filtered(name, data, named, consts, witnesses, "")
+}
+
+/// Like `emit`, but only rows whose gate id starts with `only_gate` are written out in full (the
+/// per-gate row histogram still covers every row). Used for the full recursive circuits, where only
+/// the constant gates and the copy classes of the verifier-key wires are needed.
+pub fn emit_filtered(
+    name: &str,
+    data: &CircuitData<F, C, D>,
+    named: &[(String, Vec<Target>)],
+    consts: &[(String, Vec<u64>)],
+    witnesses: &[Witness],
+    only_gate: &str,
+) -> String {
     let c = &data.common;
     let n = c.degree();
     let nw = c.config.num_wires;
@@ -80,6 +94,9 @@ pub fn emit(
         write!(s, "{}", g.0.num_constraints()).unwrap();
     }
     s.push_str("],\"rows\":[");
+    let mut hist = vec![0usize; c.gates.len()];
+    let mut extra: Vec<(usize, u64)> = vec![];
+    let mut wrote = false;
     for r in 0..n {
         let mut gi: Option<usize> = None;
         for j in 0..num_sel {
@@ -98,12 +115,31 @@ pub fn emit(
             .collect();
         let used_wires = g.0.num_wires();
         let reps: Vec<usize> = (0..used_wires).map(|col| rep[r * nw + col]).collect();
-        if r > 0 {
+        hist[gi] += 1;
+        // gates may expose spare constant slots on routed wires (e.g. RandomAccessGate): wire == constant
+        for (ci, wi) in g.0.extra_constant_wires() {
+            extra.push((rep[r * nw + wi], consts_eval[base + ci][r].to_canonical_u64()));
+        }
+        if !only_gate.is_empty() && !format!("{:?}", g.0.id()).trim_matches('"').starts_with(only_gate) {
+            continue;
+        }
+        if wrote {
             s.push(',');
         }
+        wrote = true;
         write!(s, "{{\"g\":{},\"k\":{:?},\"w\":{:?}}}", gi, kc, reps).unwrap();
     }
-    s.push_str("],\"public_inputs\":[");
+    s.push_str("],\"row_histogram\":");
+    write!(s, "{:?}", hist).unwrap();
+    s.push_str(",\"extra_constants\":[");
+    for (j, (cl, v)) in extra.iter().enumerate() {
+        if j > 0 {
+            s.push(',');
+        }
+        write!(s, "[{},{}]", cl, v).unwrap();
+    }
+    s.push(']');
+    s.push_str(",\"public_inputs\":[");
     for (i, t) in data.prover_only.public_inputs.iter().enumerate() {
         if i > 0 {
             s.push(',');
